@@ -61,16 +61,7 @@ ALL_INVS = ["Lower", "Upper", "UpperCell", "Exact", "NAdded", "CellsBelowCap", "
 ALL_PROPS = ["AddEffectProp", "MonotoneProp", "MergeEffectProp"]
 
 
-def write_cfg(name, base, invs, props, extra=""):
-    p = os.path.join(workdir(), name)
-    with open(p, "w") as f:
-        f.write(base)
-        for i in invs:
-            f.write("INVARIANT %s\n" % i)
-        for q in props:
-            f.write("PROPERTY %s\n" % q)
-        f.write(extra)
-    return p
+write_cfg = common.write_cfg
 
 
 # ----------------------------------------------------------------------------- MC
@@ -263,47 +254,8 @@ def random_history(rng, focus=None, n_events=None):
     return rec.trace()
 
 
-def validate(report, traces, invs, props, tag="lintr", prop_names=None):
-    """Run the trace specification over a batch of recorded traces.  Returns True iff all
-    traces were accepted; reports the first rejection as a violation."""
-    if not traces:
-        return True
-    path = os.path.join(workdir(), "traces_%s.json" % tag)
-    with open(path, "w") as f:
-        json.dump(traces, f)
-    cfg = write_cfg("tr_%s.cfg" % tag, TR_CONSTS, invs, props)
-    r = run_tlc(MODULE_TR, cfg, env={"TRACE_FILE": path}, workers=16, tag=tag)
-    n_events = sum(len(t["events"]) for t in traces)
-    report.cov["tlc_runs"].append({"name": MODULE_TR, "traces": len(traces), "events": n_events,
-                                   "distinct_states": r.distinct, "wall_s": round(r.wall, 1)})
-    if r.ok:
-        if r.distinct < n_events:
-            raise MachineryError("trace spec explored %d states for %d events" % (r.distinct, n_events))
-        report.cov["traces_validated_against_impl"] += len(traces)
-        report.cov["evaluations"] += n_events
-        for t in traces:
-            for e in t["events"]:
-                report.count_action(e["ev"])
-        return True
-    tid = int(r.last_state.get("tid", "0"))
-    l = int(r.last_state.get("l", "0"))
-    tr = traces[tid - 1] if 0 < tid <= len(traces) else None
-    mism = [p for p in r.prints if p.startswith('<<"MISMATCH"')]
-    detail = ""
-    if r.violated == "TraceOK":
-        l = l - 1
-        detail = common.pick_mismatch(mism, tid, l)
-    what = "trace %d rejected at event %d (%s): %s %s violated. %s" % (
-        tid, l, (tr["events"][l - 1]["ev"] if tr and 0 < l <= len(tr["events"]) else "?"),
-        r.kind, r.violated, detail)
-    small = None
-    if tr:
-        small = dict(tr)
-        small["events"] = tr["events"][:l]
-    report.violation(what, {"kind": "trace", "module": MODULE_TR, "violated": r.violated,
-                            "trace": small, "event_index": l,
-                            "signature": {"trace_violated": r.violated}})
-    return False
+def validate(report, traces, invs, props, tag="lintr"):
+    return common.validate_traces(report, MODULE_TR, TR_CONSTS, traces, invs, props, tag, "cm_linear")
 
 
 # ------------------------------------------------------------- spec -> code replay
@@ -415,13 +367,13 @@ def replay_edges(report, edges, Cap, scaled, rng, variants=2):
                          "nadd": s["nadd"] * S, "nrec": s["nrec"]} for s in f]
             out = {}
             for e in es:
-                out.setdefault(json.dumps(e["f"]), []).append(e)
+                out.setdefault(json.dumps(e["f"], sort_keys=True), []).append(e)
             init = [e for e in es if all(all(c == 0 for row in s["tbl"] for c in row) and
                                          s["nadd"] == 0 and s["nrec"] == 0 for s in e["f"])]
             if not init:
                 raise MachineryError("no edge leaves the initial state")
             NS = len(init[0]["f"])
-            start = json.dumps(init[0]["f"])
+            start = json.dumps(init[0]["f"], sort_keys=True)
             snaps = {start: _snap([impl.countmin.CountMinLinear(W, D) for _ in range(NS)])}
             queue = [start]
             while queue:
@@ -470,7 +422,7 @@ def replay_edges(report, edges, Cap, scaled, rng, variants=2):
                             {"kind": "edge", "env": env, "edge": e, "keys": {str(k): list(v) for k, v in real.items()},
                              "scale": S, "got": got, "expected": exp, "signature": {"edge_op": name}})
                         return False
-                    tn = json.dumps(e["t"])
+                    tn = json.dumps(e["t"], sort_keys=True)
                     if tn not in snaps:
                         snaps[tn] = _snap(objs)
                         queue.append(tn)
